@@ -112,7 +112,7 @@ func (c *Ctx) checkLockPairing(rule string) int {
 					}
 					unlockBlocks[u.in.Block()] = true
 					for _, s := range u.in.Block().Succs {
-						cut[edge{u.in.Block(), s}] = true
+						cut[edge{from: u.in.Block(), to: s}] = true
 					}
 				}
 			}
